@@ -1078,6 +1078,17 @@ func TestSenderBounded(t *testing.T) {
 		n := rapid.SampledFrom([]int{50, 200, 800}).Draw(t, "n")
 		s := newMachine(t, kind)
 		defer s.c.close()
+		// ordinary traffic first: requests that get their answer
+		answeredFirst := rapid.SampledFrom([]int{0, 0, 5, 40, 300}).Draw(t, "answeredFirst")
+		for i := 0; i < answeredFirst; i++ {
+			if out := s.doRequest(t, model.CmdClassifierTypeRead, 0, i%nDests, s.serial, false); out != "written" {
+				t.Fatalf("harness: distinct request %d was %s", i, out)
+			}
+			s.serial++
+			un := s.m.unansweredCounters()
+			s.respond(t, "unanswered", "api", un[len(un)-1])
+		}
+		world.Label(fmt.Sprintf("bounded/answered-first=%d", answeredFirst))
 		// a few notifications and other datagrams in between keep the counters of requests non-contiguous
 		for i := 0; i < n; i++ {
 			if out := s.doRequest(t, model.CmdClassifierTypeRead, 0, i%nDests, s.serial, false); out != "written" {
